@@ -71,7 +71,7 @@ fn ob_uring_new() {
   assert!(r.len() == 0 && r.is_empty());
   assert!(r.capacity() >= c && r.capacity() < 2 * c);
   kani::cover!(r.capacity() == 4 && c == 3);
-  kani::cover!(true);
+  kani::cover!(true, "END");
 }
 
 fn step_push(cap0: usize) {
@@ -108,7 +108,7 @@ fn step_push(cap0: usize) {
       kani::cover!(true);
     }
   }
-  kani::cover!(true);
+  kani::cover!(true, "END");
 }
 
 fn step_pop(cap0: usize) {
@@ -136,7 +136,7 @@ fn step_pop(cap0: usize) {
       kani::cover!(true);
     }
   }
-  kani::cover!(true);
+  kani::cover!(true, "END");
 }
 
 use crate::verif_k_stubs::{D, drops};
@@ -203,7 +203,7 @@ fn step_drop_once(cap0: usize) {
   kani::cover!(op == 0 && len == cap0);
   kani::cover!(op == 2 && len == cap0);
   kani::cover!(op == 3 && len == cap0);
-  kani::cover!(true);
+  kani::cover!(true, "END");
 }
 
 // @obligation id=uring.push.cap1 props=C01,C02,C03 kind=step tier=quick bound="physical capacity 1; head any usize (wrap included); payload any u8"
